@@ -9,11 +9,13 @@ ID = 'C10'
 LEVEL = 'model_checking'
 INCLUDE = spaces.C02_SIX + ['n_geos_max', 'n_designs']
 RULE = ('Engine B: for every input of DEV(3,d) u DEV(4,d) (d = 1 quick, 2 thorough; complete deviation levels) and DEV(4,1) x 3 '
-        'prior uses of the SAME data object by another matched-markets object (non-initial state; fresh reference built on fresh data), '
+        'prior uses of the SAME data object by another matched-markets object (non-initial state of the data object), '
         'explicit-state BFS to closure over a real TBRMatchedMarkets object. Alphabet (15 ops): geos_over_budget, '
         'geos_too_large, geos_must_include, geos_within_constraints, geo_assignments, treatment_group_size_range, '
         'count_max_designs, listings of treatment_group_generator(1|2) and control_group_generator({0}), '
-        'design_within_constraints({0},{1}), exhaustive_search, greedy_search, search_results. State = recursive '
+        'design_within_constraints({0},{1}), exhaustive_search, greedy_search, search_results, plus one ENVIRONMENT action: another '
+        'matched-markets object (other parameters) built on the same data object installs its geo index. The reference is always '
+        'a fresh object on a fresh data object. State = recursive '
         'fingerprint of every attribute of the object graph (frames/arrays byte-exact, heap lists in layout order) '
         '+ model (answer of the most recent search). On every transition: the answer (value or exception type) equals '
         'the answer of the same call on a freshly built object (search_results: the return value of the most recent '
@@ -52,6 +54,19 @@ OPS = {
 }
 SEARCHES = ('exhaustive_search', 'greedy_search')
 OPNAMES = list(OPS)
+ENV_OP = 'ENV:another_object_uses_the_shared_data_object'
+ENV_KW = {'n_geos_max': 2, 'n_designs': 1}
+
+
+def interfere(m):
+    """Environment action: a second matched-markets object (other parameters, same window) built on THIS object's data
+    object looks up its geo assignments, i.e. installs its own geo index and arrays in the shared data object."""
+    from matched_markets.methodology.tbrmatchedmarkets import TBRMatchedMarkets
+    other = TBRMatchedMarkets(m.data, sc.params(ENV_KW))
+    try:
+        other.geo_assignments
+    except ValueError:
+        pass
 
 
 def call(m, op):
@@ -98,12 +113,18 @@ def run_case(case):
     if canon(copy.deepcopy(m0)) != canon(m0):
         raise RuntimeError('deepcopy of the matched-markets object is not faithful')
     fresh = {}
+    # The reference is always a freshly built object on a FRESH data object: whatever an earlier or a concurrent
+    # matched-markets object left in a shared data object must not influence any answer (anchor: the assignments
+    # property re-derives and re-installs the geo index on every access).
     fresh_case = {k: v for k, v in case.items() if k != 'prior'}
     for op in OPNAMES:
         m, _ = sc.build_mm(fresh_case)
         fresh[op] = call(m, op)
 
     def step(m, model, op):
+        if op == ENV_OP:
+            interfere(m)
+            return model, [], (op,)
         par_pre = dataclasses.asdict(m.parameters)
         got = call(m, op)
         exp = fresh[op]
@@ -125,7 +146,7 @@ def run_case(case):
         model2 = got if (op in SEARCHES and got[0] == 'val') else model   # a search that raised stores nothing
         return model2, v, (op, got[0], len(got[1]) if got[0] == 'val' and isinstance(got[1], tuple) else got[1])
 
-    r = bfs.explore(m0, None, OPNAMES, step, canon, max_states=400)
+    r = bfs.explore(m0, None, OPNAMES + [ENV_OP], step, canon, max_states=400)
     for x in r['violations']:
         viol.append({'key': x['key'], 'msg': x['msg'] + ' | history: ' + repr(x['hist'])})
     # linear run on un-copied objects: caller-owned inputs stay untouched
@@ -147,7 +168,7 @@ def run_case(case):
             exp = fresh[op]
             if op == 'search_results' and last is not None:
                 exp = last
-            if got != exp and not case.get('prior'):
+            if got != exp:
                 viol.append({'key': 'C10:live-object-history:' + op, 'msg': 'on a never-copied object, %s after a long history answers %s, expected %s' % (
                     op, _short(got), _short(exp))})
             if op in SEARCHES and got[0] == 'val':
